@@ -4,7 +4,7 @@ GATE_DECIDERS = [[0, 0], [2, 8], [3, 8], [4, 16], [5, 16], [6, 0], [7, 0]]
 
 
 def gen(rng, size='small', focus=None):
-    focus = focus or rng.choice(['plain', 'plain', 'faults', 'resources', 'buffers', 'batches', 'groups', 'gates', 'maint'])
+    focus = focus or rng.choice(['plain', 'plain', 'faults', 'resources', 'buffers', 'batches', 'groups', 'gates', 'maint', 'rewire'])
     ents = []
 
     def add(e):
@@ -50,6 +50,8 @@ def gen(rng, size='small', focus=None):
         prev.append(i)
         sources.append(i)
     processors, buffers, blockable, cyclers = [], [], [], []
+    stages = [list(sources)]       # device ids per stage (what later stages may be wired to)
+    rewirable = []                 # (device id, its stage index) of plain devices that may get new upstreams mid-run
     nstages = rng.randint(1, 3) if not big else rng.randint(2, 5)
     in_group_done = False
     for s in range(nstages):
@@ -101,6 +103,7 @@ def gen(rng, size='small', focus=None):
                 cur.append(p)
                 blockable.append(p)
             prev = cur
+            stages.append(list(cur))
             continue
         width = rng.choice([1, 1, 2, 2, 3]) if not big else rng.choice([1, 2, 2, 3])
         for _ in range(width):
@@ -148,6 +151,7 @@ def gen(rng, size='small', focus=None):
             i = add(e)
             cur.append(i)
             blockable.append(i)
+            rewirable.append((i, len(stages)))
             if k == 'processor':
                 processors.append(i)
             if k in ('processor', 'handler'):
@@ -155,6 +159,7 @@ def gen(rng, size='small', focus=None):
             if k == 'buffer':
                 buffers.append(i)
         prev = cur
+        stages.append(list(cur))
     if in_group_done and rng.random() < 0.35:
         # re-entrant use: the line goes through the shared group a second time, through one more path
         p = add(dict(kind='path', gid=1, up=list(prev)))
@@ -219,6 +224,12 @@ def gen(rng, size='small', focus=None):
         elif cyclers and r < 0.72:
             # a one-shot cycle-time offset requested from outside (applies to the next cycle only, floored at zero)
             ext.append(['at', t, new_script([['offset', rng.choice(cyclers), rng.choice([-24, -16, -8, -8, -4, 4, 8])]]), prio])
+        elif rewirable and r < (0.79 if focus == 'rewire' else 0.735):
+            # mid-run rewiring: the device gets its upstreams from earlier stages replaced
+            d, k = rng.choice(rewirable)
+            pool = [u for st in stages[:k] for u in st]
+            ups = rng.sample(pool, min(len(pool), rng.choice([1, 1, 2])))
+            ext.append(['at', t, new_script([['rewire', d] + ups + [0] * (2 - len(ups))]), prio])
         elif r < 0.80:
             d = rng.choice(blockable)
             ext.append(['at', t, new_script([['block', d, 1]]), prio])
